@@ -93,7 +93,7 @@ NextLogEncode ==
 HInst == Inst("max", << V(1, "integer", B(R(0), R(2))), V(2, "binary", <<>>) >>, L(<< T(1, R(1)), T(2, R(1)) >>, Zero),
               << C(10, "le", L(<< T(1, R(1)), T(2, R(1)) >>, R(-2))), C(11, "eq", Q(<<1>>, <<2>>, <<R(1)>>, <<>>)) >>,
               << Rm(C(12, "le", L(<< T(1, R(1)) >>, R(-1))), "r0") >>, <<>>)
-Ops == { [op |-> "relax", cid |-> c, reason |-> "why", rparams |-> <<>>] : c \in {10, 11, 12, 99} }
+Ops == { [op |-> "relax", cid |-> c, reason |-> IF c = 11 THEN "" ELSE "why", rparams |-> <<>>] : c \in {10, 11, 12, 99} }
        \cup { [op |-> "restore", cid |-> c, reason |-> "", rparams |-> <<>>] : c \in {10, 11, 12, 99} }
 EvalOp(x, y) == [op |-> "evaluate", cid |-> 0, reason |-> "", rparams |-> <<>>, st |-> << <<1, x>>, <<2, y>> >>]
 WithSt(o) == [o EXCEPT !.cid = @] @@ [st |-> <<>>]
@@ -160,12 +160,16 @@ NextSlackRejects == \E why \in {"unknown", "equality", "continuous", "nofn", "re
         cid == IF why = "unknown" THEN 99 ELSE IF why = "removed" THEN 8 ELSE 7 IN
     vec' = Ev(IF conv THEN "slack_convert" ELSE "slack_add", [inst |-> base, cid |-> cid, max |-> 1000, ub |-> 2, points |-> PtsOfBox(B(R(0), R(2)), B(R(0), R(2)))])
 \* ---- C09 / C10 --------------------------------------------------------------------------------------------------------------
-PenInsts == { Inst(s, << V(1, "integer", B(R(0), R(2))), V(2, "binary", <<>>), V(7, "continuous", <<>>) >>, L(<< T(1, R(1)) >>, R(1)), cons, rem, <<>>) :
+\* (variable 3 is defined but used nowhere: fresh parameter ids must avoid it too)
+PenInsts == { Inst(s, << V(1, "integer", B(R(0), R(2))), V(2, "binary", <<>>), V(3, "integer", <<>>), V(7, "continuous", <<>>) >>, L(<< T(1, R(1)) >>, R(1)), cons, rem, <<>>) :
               s \in {"min", "max"},
               cons \in { <<>>, << C(10, "le", L(<< T(1, R(1)), T(2, R(1)) >>, R(-2))) >>,
                          << C(3, "eq", Q(<<1>>, <<2>>, <<R(1)>>, <<>>)), [C(20, "le", K(R(2))) EXCEPT !.f = <<>>], C(5, "le", K(<<1,2>>)) >> },
               rem \in { <<>>, << Rm(C(12, "le", L(<< T(7, R(1)) >>, R(-1))), "r0") >> } }
-NextPenalty == \E i \in PenInsts, name \in {"penalty", "uniform_penalty", "to_parametric"} : vec' = Ev(name, [inst |-> i])
+NextPenalty == \/ \E i \in PenInsts, name \in {"penalty", "uniform_penalty", "to_parametric"} : vec' = Ev(name, [inst |-> i])
+               \* an instance that records the parameter values it was instantiated with converts back with NO declared parameters
+               \/ \E i \in PenInsts, pv \in { << <<>> >>, << << <<50, R(2)>>, <<51, <<1,2>> >> >> >> } :
+                     vec' = Ev("to_parametric", [inst |-> [i EXCEPT !.params = pv]])
 PInstBase == [Inst("min", << V(1, "integer", B(R(0), R(2))), V(2, "binary", <<>>) >>,
                    P(<< Mo(<<1, 50, 50>>, R(2)), Mo(<<51>>, R(1)), Mo(<<1, 2>>, R(-1)) >>),
                    << C(10, "le", Q(<<50>>, <<1>>, <<R(1)>>, << L(<< T(2, R(1)) >>, R(-1)) >>)) >>,
